@@ -321,6 +321,78 @@ def check_c11(seed, tier):
 
 
 # ---------------------------------------------------------------------------------------------
+def check_successive(seed, tier):
+    """Several products handled by ONE process — the state a long-running session reaches:
+    (a) a product replaced in place by another one with the same file names and geometry, then opened afresh;
+    (b) two products with the same file names under different roots, opened and loaded alternately.
+    Every fresh open must return the samples of the file that is there NOW (C01), and loading pixels of a product may
+    only touch that product's image file (C11)."""
+    rng = random.Random(seed + 101)
+    TFS = common.register_trace_protocol()
+    viol, evals, distinct, samples = [], 0, set(), []
+    trials = 3 if tier == "quick" else 24
+    for trial in range(trials):
+        level = rng.choice(["1.1", "1.5"])
+        n, m = rng.choice([(3, 2), (5, 3), (7, 2), (4, 4)])
+        pols = rng.choice([[("HH", None)], [("HH", None), ("HV", None)]])
+        rpc = rng.choice([1, 2, 3, n, 1024])
+        fsk = ["tracemem", "local", "memory"][trial % 3]
+        cfgs = [{"seed": rng.randrange(10**9), "level": level, "images": pols, "n_lines": n, "n_pixels": m} for _ in range(3)]
+        prods = [products.build(c) for c in cfgs]
+        case0 = {"cfgs": cfgs, "rpc": rpc, "fs": fsk}
+
+        def load_all(path, prod, what, case):
+            nonlocal evals
+            evals += 1
+            try:
+                t = _open(path, records_per_chunk=rpc)
+                for im in prod.images:
+                    del TFS.events[:]
+                    got = t[f"imagery/{im.pol}/data"].values
+                    if not products.same_bits(got, products.twin(im)):
+                        viol.append({"case": case, "what": f"{what}: /imagery/{im.pol}/data does not hold the samples stored in the file now at {path}"})
+                    if fsk == "tracemem":
+                        root = path[len("tracemem://"):]
+                        foreign = [e for e in TFS.events if not e[1].startswith(root + "/") or not e[1].endswith(im.name)]
+                        if foreign:
+                            viol.append({"case": case, "what": f"{what}: loading pixels touched other files: {foreign[:3]}"})
+                        if not any(e[0] == "read" and e[1].startswith(root + "/") for e in TFS.events):
+                            viol.append({"case": case, "what": f"{what}: no read of {root}/{im.name} although its pixels were loaded"})
+            except Exception as e:  # noqa: BLE001
+                viol.append({"case": case, "what": f"{what}: {type(e).__name__}: {e}"[:300], "key": common.failure_site(e)})
+
+        # (a) replaced in place
+        path, clean = products.place(prods[0], fsk)
+        try:
+            load_all(path, prods[0], "first product", {**case0, "scenario": "replace-in-place", "step": 0})
+            for step, pr in enumerate(prods[1:], 1):
+                if fsk == "local":
+                    import synth
+                    synth.write_product(pr, path)
+                else:
+                    import fsspec
+                    import synth
+                    synth.write_product(pr, path.split("://", 1)[1], fs=fsspec.filesystem(fsk))
+                load_all(path, pr, f"after replacing the files in place ({step})", {**case0, "scenario": "replace-in-place", "step": step})
+        finally:
+            clean()
+        distinct.add(("replace", level, n, m, rpc, fsk, len(pols)))
+        # (b) same names, different roots, alternating
+        placed = [products.place(pr, fsk) for pr in prods[:2]]
+        try:
+            for step in range(4):
+                k = step % 2
+                load_all(placed[k][0], prods[k], f"product {k} of two with equal file names (step {step})", {**case0, "scenario": "same-names-two-roots", "step": step})
+        finally:
+            for _, c in placed:
+                c()
+        distinct.add(("two-roots", level, n, m, rpc, fsk, len(pols)))
+        if len(samples) < 1:
+            samples.append(case0)
+    return {"name": "oracle:successive products in one process", "evaluations": evals, "distinct": len(distinct), "violations": viol, "samples": samples}
+
+
+# ---------------------------------------------------------------------------------------------
 def check_c18(seed, tier):
     """truncated / missing component files: open_alos2 raises (OSError family for missing files); it never returns a
     tree whose image has fewer readable lines than its declared shape; it terminates promptly"""
